@@ -308,7 +308,7 @@ static int session_main(int argc, char **argv) {
     if (e_ih != EB_ErrorNone) { printf("{\"init_handle\":%d}\n", (int)e_ih); return 0; }
     if (!strcmp(stop_after, "ih")) {
         EbErrorType e_d = svt_av1_enc_deinit(hdl); EbErrorType e_dh = svt_av1_enc_deinit_handle(hdl);
-        printf("{\"init_handle\":0,\"stopped\":\"ih\",\"deinit\":%d,\"deinit_handle\":%d,\"tasks\":%d,\"cycle\":%d}\n", (int)e_d, (int)e_dh, ntasks(), cycle_no);
+        printf("{\"init_handle\":0,\"stopped\":\"ih\",\"deinit\":%d,\"deinit_handle\":%d,\"tasks\":%d,\"unjoined\":%d,\"cycle\":%d}\n", (int)e_d, (int)e_dh, ntasks(), vs_unjoined(), cycle_no);
         free(cfg); return 0;
     }
     cfg->source_width = (uint32_t)W; cfg->source_height = (uint32_t)H;
@@ -328,14 +328,14 @@ static int session_main(int argc, char **argv) {
     if (e_sp != EB_ErrorNone || !strcmp(stop_after, "sp")) {
         EbErrorType e_d = !strcmp(stop_after, "") ? 0 : svt_av1_enc_deinit(hdl);
         EbErrorType e_dh = svt_av1_enc_deinit_handle(hdl);
-        printf("{\"init_handle\":0,\"set_parameter\":%d,\"stopped\":\"sp\",\"deinit\":%d,\"deinit_handle\":%d,\"tasks\":%d,\"cycle\":%d}\n", (int)e_sp, (int)e_d, (int)e_dh, ntasks(), cycle_no);
+        printf("{\"init_handle\":0,\"set_parameter\":%d,\"stopped\":\"sp\",\"deinit\":%d,\"deinit_handle\":%d,\"tasks\":%d,\"unjoined\":%d,\"cycle\":%d}\n", (int)e_sp, (int)e_d, (int)e_dh, ntasks(), vs_unjoined(), cycle_no);
         free(cfg); return 0;
     }
     EbErrorType e_in = svt_av1_enc_init(hdl);
     if (e_in != EB_ErrorNone || !strcmp(stop_after, "init")) {
         EbErrorType e_d = svt_av1_enc_deinit(hdl);
         EbErrorType e_dh = svt_av1_enc_deinit_handle(hdl);
-        printf("{\"init_handle\":0,\"set_parameter\":0,\"init\":%d,\"stopped\":\"init\",\"deinit\":%d,\"deinit_handle\":%d,\"tasks\":%d,\"cycle\":%d}\n", (int)e_in, (int)e_d, (int)e_dh, ntasks(), cycle_no);
+        printf("{\"init_handle\":0,\"set_parameter\":0,\"init\":%d,\"stopped\":\"init\",\"deinit\":%d,\"deinit_handle\":%d,\"tasks\":%d,\"unjoined\":%d,\"cycle\":%d}\n", (int)e_in, (int)e_d, (int)e_dh, ntasks(), vs_unjoined(), cycle_no);
         free(cfg); return 0;
     }
     Bytes hdrb = {0};
@@ -460,7 +460,7 @@ static int session_main(int argc, char **argv) {
     printf("{\"init_handle\":0,\"set_parameter\":0,\"init\":0,\"hdr\":%d,\"hdr_len\":%zu,\"send_err\":%d,", e_hdr, hdrb.len, nsend_err);
     printf("\"n\":%d,\"npk\":%d,\"nrc\":%d,\"eos_pkt\":%d,\"eos_rec\":%d,\"completed\":%d,\"blocked_recon\":%d,", N, npk, nrc, got_eos_pkt, got_eos_rec, completed, blocked_recon);
     printf("\"err_get_packet\":%d,\"err_recon\":%d,\"deinit\":%d,\"deinit_handle\":%d,\"points\":%ld,", err_get_packet, err_recon, (int)e_d, (int)e_dh, points);
-    printf("\"pkt_hash\":\"%016llx\",\"rec_hash\":\"%016llx\",\"tasks\":%d,\"cycle\":%d,\"torn\":%d,", (unsigned long long)pkh, (unsigned long long)rch, ntasks(), cycle_no, torn);
+    printf("\"pkt_hash\":\"%016llx\",\"rec_hash\":\"%016llx\",\"tasks\":%d,\"unjoined\":%d,\"cycle\":%d,\"torn\":%d,", (unsigned long long)pkh, (unsigned long long)rch, ntasks(), vs_unjoined(), cycle_no, torn);
     printf("\"sent_pts\":[");
     for (int i = 0; i < N && i < nsent; i++) printf("%s%lld", i ? "," : "", (long long)sent_pts[i]);
     printf("],\"pk\":[");
